@@ -325,6 +325,10 @@ pub fn c12(out: &mut dyn Write, tier: &str, rng: &mut Rng, st: &mut Stats) {
         texts.push(t.into_bytes());
         st.hit("node-hungry");
     }
+    // texts that are only comments, the last closing quote being the last byte; line endings of every kind; a byte-order mark
+    for t in ["\"c\"", "\"only a comment\"", "\"a\"\"b\"", "\"\"", "\"c\"\n", "\"c\" ", "a\r\nb", "a &\r\nb", "a &\rb\r", "\u{feff}a & b", "a & b\u{feff}", "\t\r\n"] {
+        texts.push(t.as_bytes().to_vec());
+    }
     let n = if tier == "thorough" { 200000 } else { 4000 };
     for i in 0..n {
         let kind = if i < 64 { (i % 16) as u64 } else { rng.below(18) };
@@ -364,7 +368,7 @@ pub fn c12(out: &mut dyn Write, tier: &str, rng: &mut Rng, st: &mut Stats) {
         if text.len() > 20000 && i % 8 != 0 { continue; }
         let ordering: Option<Vec<u8>> = match rng.below(4) {
             0 => { let l = 1 + rng.below(6) as usize; Some(soup(rng, l).into_bytes()) }
-            1 => Some(b"c b a unused".to_vec()),
+            1 => Some(rng.pick(&[&b"c b a unused"[..], b"\"no preference\"", b"\"a\"\"b\"", b"c\r\nb\r\na", b"\"c\" ", b"c\rb\ra\r", b"\xef\xbb\xbfa b"]).to_vec()),
             2 => { let k = rng.below(4); Some(malformed(rng, k)) }
             _ => None,
         };
